@@ -42,32 +42,36 @@ AddPair == /\ added < Extra
            /\ \E p \in Pairs : recs' = [recs EXCEPT ![Len(recs)].pairs = Append(@, p)]
            /\ added' = added + 1
 StartDelta == /\ added < Extra /\ Len(recs) < 3 /\ Len(recs[Len(recs)].pairs) >= 1
-              /\ \E a \in DeltaAddrs : (\A i \in 1..Len(recs) : recs[i].addr # a) /\ recs' = Append(recs, [addr |-> a, pairs |-> <<>>])
+              /\ \E a \in DeltaAddrs : recs' = Append(recs, [addr |-> a, pairs |-> <<>>])     \* the same address may repeat
               /\ UNCHANGED added
 Next == AddPair \/ StartDelta
 Spec == Init /\ [][Next]_vars
 
 \* ---- documented semantics ----
 Regs == {"cfa", "ra", "rbx", "rbp"}
-\* records that apply at lookup address lk, in address order (INIT first; INIT has the smallest address here)
-Applicable(lk) == LET idx == {i \in 1..Len(recs) : i = 1 \/ recs[i].addr <= lk} IN
-   \* sort the (at most 3) indices by address
-   LET RECURSIVE Sorted(_)
-       Sorted(S) == IF S = {} THEN <<>> ELSE LET m == CHOOSE i \in S : \A j \in S : recs[i].addr <= recs[j].addr IN <<m>> \o Sorted(S \ {m})
-   IN Sorted(idx)
+\* Orders in which the records applying at lookup address lk may be applied: INIT first, then the deltas
+\* with address <= lk by ascending address.  Deltas with EQUAL addresses have no documented relative
+\* order, so both orders are considered; the outcome is specified only when they agree.
+Orders(lk) == LET D == {i \in 2..Len(recs) : recs[i].addr <= lk} IN
+   IF D = {} THEN {<<1>>}
+   ELSE IF Cardinality(D) = 1 THEN {<<1, CHOOSE i \in D : TRUE>>}
+   ELSE \* exactly two deltas (Len(recs) <= 3)
+        IF recs[2].addr < recs[3].addr THEN {<<1, 2, 3>>}
+        ELSE IF recs[3].addr < recs[2].addr THEN {<<1, 3, 2>>}
+        ELSE {<<1, 2, 3>>, <<1, 3, 2>>}
 RECURSIVE ApplyPairs(_,_,_)
 ApplyPairs(m, ps, i) == IF i > Len(ps) THEN m ELSE ApplyPairs([m EXCEPT ![Labels[ps[i].l]] = ps[i].e], ps, i+1)
 RECURSIVE ApplyRecs(_,_,_)
 ApplyRecs(m, order, i) == IF i > Len(order) THEN m ELSE ApplyRecs(ApplyPairs(m, recs[order[i]].pairs, 1), order, i+1)
-RuleMap(lk) == ApplyRecs([r \in Regs |-> "none"], Applicable(lk), 1)
+RuleMapO(order) == ApplyRecs([r \in Regs |-> "none"], order, 1)
 \* Eval of every pool expression, tabulated once (TLC evaluates constant definitions a single time):
 \* first without a CFA, then under each CFA value a pool expression can produce
 CfaVals == {Eval(Pool[e], <<>>) : e \in DOMAIN Pool} \ {<<>>}
 EvalNoCfa == [e \in DOMAIN Pool |-> Eval(Pool[e], <<>>)]
 EvalWith == [c \in CfaVals |-> [e \in DOMAIN Pool |-> Eval(Pool[e], c)]]
-Outcome(lk) ==
+OutcomeO(lk, order) ==
   IF lk < InitAddr \/ lk >= InitAddr + InitSize THEN [ok |-> FALSE, why |-> "norecord"]
-  ELSE LET m == RuleMap(lk) IN
+  ELSE LET m == RuleMapO(order) IN
        IF m["cfa"] = "none" \/ m["ra"] = "none" THEN [ok |-> FALSE, why |-> "missing"]
        ELSE LET cfa == EvalNoCfa[m["cfa"]] IN
             IF cfa = <<>> THEN [ok |-> FALSE, why |-> "cfa"]
@@ -78,17 +82,21 @@ Outcome(lk) ==
                       [ok |-> TRUE, cfa |-> cfa, ra |-> ra,
                        set |-> [r \in {x \in others : val(x) # <<>>} |-> val(r)],
                        clear |-> {x \in others : val(x) = <<>>}]
+Outcomes(lk) == {OutcomeO(lk, o) : o \in Orders(lk)}
+Outcome(lk) == IF Cardinality(Outcomes(lk)) = 1 THEN CHOOSE o \in Outcomes(lk) : TRUE ELSE [ok |-> FALSE, why |-> "unspecified"]
+RuleMap(lk) == RuleMapO(CHOOSE o \in Orders(lk) : TRUE)
+Specified(lk) == Cardinality(Outcomes(lk)) = 1 /\ Cardinality({RuleMapO(o) : o \in Orders(lk)}) = 1
 Complete == \A i \in 1..Len(recs) : Len(recs[i].pairs) >= 1
 
 \* ---- design-level properties ----
 \* a successful unwind always has both mandatory rules, and the CFA never depends on itself
-Mandatory == \A i \in 1..Len(Lookups) : Outcome(Lookups[i]).ok =>
+Mandatory == \A i \in 1..Len(Lookups) : (Specified(Lookups[i]) /\ Outcome(Lookups[i]).ok) =>
                  (RuleMap(Lookups[i])["cfa"] \notin {"none", "cself", "und"} /\ RuleMap(Lookups[i])["ra"] # "none")
 \* a delta never influences addresses below it
 DeltaMonotone == \A i \in 1..Len(Lookups) : (\A j \in 2..Len(recs) : recs[j].addr > Lookups[i]) =>
                  RuleMap(Lookups[i]) = ApplyPairs([r \in Regs |-> "none"], recs[1].pairs, 1)
 \* every non-special register with a rule is either set or cleared, never silently kept
 SetOrCleared == \A i \in 1..Len(Lookups) : LET o == Outcome(Lookups[i]) m == RuleMap(Lookups[i]) IN
-                 o.ok => \A r \in {"rbx","rbp"} : (m[r] # "none") <=> (r \in DOMAIN o.set \/ r \in o.clear)
+                 (Specified(Lookups[i]) /\ o.ok) => \A r \in {"rbx","rbp"} : (m[r] # "none") <=> (r \in DOMAIN o.set \/ r \in o.clear)
 Emit == Complete => PrintT(<<"CASE", ToJson([recs |-> recs, exp |-> [i \in 1..Len(Lookups) |-> [lk |-> Lookups[i], out |-> Outcome(Lookups[i])]]])>>)
 ====
